@@ -3,7 +3,8 @@
 Transcribed, branch by branch, from
 * `jedi/inference/names.py`: `_ActualTreeParamName.get_kind`, `BaseTreeParamName.to_string /
   get_public_name`, `_ParamMixin._kind_string`
-* `jedi/inference/signature.py`: `_SignatureMixin.to_string`, `TreeSignature.get_param_names`
+* `jedi/inference/signature.py`: `_SignatureMixin.to_string`, `TreeSignature.get_param_names`,
+  `_remove_bound_param`
 * `jedi/inference/star_args.py`: `process_params` for a body that forwards neither `*args` nor
   `**kwargs` (no callables found)
 * `jedi/api/helpers.py`: `_iter_arguments`, `CallDetails.calculate_index /
@@ -115,9 +116,16 @@ def processParams (ps : List PName) : List PName :=
   let (ys, a, ks, k, used) := ppScan ps
   ys ++ a.toList ++ ppKwOnly ks used ++ k.toList
 
+/-- `_remove_bound_param(param_names)`: `self`/`cls` is bound to the first parameter, except when
+that parameter is `*args` (which swallows it and stays).  The empty list takes the
+`param_names[1:]` branch (`param_names and …` is falsy). -/
+def removeBoundParam : List PName → List PName
+  | [] => []
+  | p :: rest => if p.kind = .varPos then p :: rest else rest
+
 /-- `TreeSignature.get_param_names(resolve_stars=True)` -/
 def signatureParams (bound : Bool) (ps : List PName) : List PName :=
-  if bound then (processParams ps).drop 1 else processParams ps
+  if bound then removeBoundParam (processParams ps) else processParams ps
 
 /-! ## `to_string` -/
 
@@ -486,6 +494,18 @@ def pyBind (s : Sig) (prev : List CArg) (cur : CArg) : Option Nat :=
       match optIdx (s.ko.map P.name) n with
       | some j => some (nfix + nvp + j)
       | none => if s.vk.isSome then some (nfix + nvp + s.ko.length) else none
+
+/-! ## Python: the signature of a bound method -/
+
+/-- `inspect._signature_bound_method`: the first positional parameter is consumed by
+`self`/`cls`; a leading `*args` absorbs it and stays; `none` = `ValueError('invalid method
+signature')` (no parameter at all, or the first one is keyword-only / `**kwargs`: every call through
+the instance raises `TypeError`). -/
+def pyBound (s : Sig) : Option Sig :=
+  match s.po, s.pk with
+  | _ :: po, _ => some { s with po := po }
+  | [], _ :: pk => some { s with pk := pk }
+  | [], [] => if s.vp.isSome then some s else none
 
 /-! ## `BaseName.docstring` -/
 
